@@ -846,3 +846,15 @@ func (e *Ev) Brief() string {
 
 // IsPanic reports whether err came from a recovered engine panic.
 func IsPanic(err error) bool { return errors.Is(err, ErrPanic) }
+
+// Peek scans every event recorded so far from index from (consumed or not) without consuming anything and
+// returns the number of events recorded.
+func (s *Sim) Peek(from int, f func(e *Ev)) int {
+	s.mu.Lock()
+	all := s.All
+	s.mu.Unlock()
+	for i := from; i < len(all); i++ {
+		f(all[i])
+	}
+	return len(all)
+}
